@@ -226,6 +226,8 @@ def ev(node, env):
         if isinstance(op, ast.BitXor):
             return a ^ b
         if isinstance(op, ast.Pow):
+            if isinstance(a, int) and isinstance(b, int) and -2048 <= b < 0 and a in (2, 8, 10, 16):
+                return float(a) ** b          # a negative power of a small base: a float, as in Python
             if b < 0 or b > 4096:
                 raise Unsupported('power')
             return a ** b
@@ -374,6 +376,11 @@ def ev(node, env):
             return len(args[0])
         if node.func.id == 'bool' and len(args) == 1:
             return bool(args[0])
+        if node.func.id == 'float' and len(args) == 1 and not node.keywords and isinstance(args[0], (int, float)) and not isinstance(args[0], bool):
+            try:
+                return float(args[0])          # the interpreter's own numbers
+            except OverflowError:
+                raise PyRaise('OverflowError')
         if node.func.id == 'str' and len(args) == 1 and not node.keywords and isinstance(args[0], (int, str)) and not isinstance(args[0], bool):
             return str(args[0])          # decimal text of the interpreter's own integers
         if node.func.id == 'int' and len(args) == 1 and not node.keywords and isinstance(args[0], (int, str)) and not isinstance(args[0], bool):
